@@ -184,7 +184,7 @@ def parse_nat_lists(out):
     return res
 
 
-def run_cases(pid, shards, header, timeout=1200):
+def run_cases(pid, shards, header, timeout=2400):
     """shards: list of Coq source bodies (strings) each ending with Eval commands that print list nat.
     Compiles them in parallel under work/<pid>/; returns list of (ok, [lists], log)."""
     d = os.path.join(WORK, pid)
@@ -207,11 +207,12 @@ def run_cases(pid, shards, header, timeout=1200):
         while pending and len(running) < NPROC:
             i, p = pending.pop(0)
             pr = subprocess.Popen(['coqc'] + QFLAGS + [p], cwd=d, stdout=subprocess.PIPE, stderr=subprocess.PIPE, text=True)
-            running.append((i, pr))
+            pr._t0 = time.time()                    # the limit is per cases file, from ITS start (a loaded machine or a
+            running.append((i, pr))                 # thorough run with hundreds of files must not time out as a whole)
         still = []
         for i, pr in running:
             if pr.poll() is None:
-                if time.time() - t0 > timeout:
+                if time.time() - pr._t0 > timeout:
                     pr.kill()
                     results[i] = (False, [], 'TIMEOUT')
                 else:
